@@ -357,7 +357,196 @@ class ObjectiveHistory:
                           nontrivial=nt, labels=labels)
 
 
-SUBS = {"history": replay_history(ObjectiveHistory)}
+# ----------------------------------------------------------------------------
+# The library's own switcher: SurrogateOptimizer toggles the objective between
+# the real system and learned models. Afterwards the objective (and a freshly
+# created one) must still return real-system values.
+# ----------------------------------------------------------------------------
+
+SURROGATE_WATCHDOG_S = 90.0
+
+
+def surrogate_runs(catalog: dict) -> Any:
+    from hypothesis import strategies as st
+
+    @st.composite
+    def cases(draw: Any) -> dict:
+        name = draw(st.sampled_from(gen_dc.BUNDLED_SYSTEMS))
+        pool = [c for c in catalog[gen_dc.SYSTEM_DIM[name]] if c[1] <= 40]
+        ctrl, n = draw(st.sampled_from(pool))
+        init = {"sys": name, "ctrl": ctrl, "n_params": n,
+                "cls": draw(st.sampled_from(["FigureOfMerit",
+                                             "FigureOfMeritLE"])),
+                "smm": True, "steps": draw(st.integers(10, 20)),
+                "time": draw(st.sampled_from([0.5, 1.0, 2.0]))}
+        warm = draw(st.integers(2, 3))
+        return {"init": init, "fancy": draw(st.sampled_from(
+                    [True, True, False])),
+                "log": draw(st.sampled_from([True, True, True, False])),
+                "warmup": warm, "budget": warm + draw(st.integers(1, 2)),
+                "train_fes": draw(st.integers(2, 6)),
+                "model_fes": draw(st.integers(2, 4)),
+                "seed": draw(st.integers(0, 2 ** 63 - 1)),
+                "xs": [draw(gen_dc.pvec(n, lo=-2.0, hi=2.0, kinds=(
+                    "rng", "near_zero", "rng_small", "unit")))
+                    for _ in range(2)]}
+    return cases()
+
+
+def _surrogate_job(case: dict) -> tuple:
+    import os
+    import shutil
+    import tempfile
+
+    from moptipy.algorithms.random_sampling import RandomSampling
+    from moptipy.api.execution import Execution
+    from moptipy.operators.vectors.op0_uniform import Op0Uniform
+
+    from moptipyapps.dynamic_control.controllers.ann import make_ann
+    from moptipyapps.dynamic_control.ode import j_from_ode, run_ode
+    from moptipyapps.dynamic_control.surrogate_optimizer import (
+        SurrogateOptimizer,
+    )
+    from moptipyapps.dynamic_control.system_model import SystemModel
+    from moptipyapps.dynamic_control import objective as objmod
+
+    warnings.simplefilter("ignore")
+    init = case["init"]
+    base = gen_dc.build_instance_dc(init)
+    system, controller = base.system, base.controller
+    real_eq = system.equations
+    real_name = str(system)
+    training = np.array(system.training_starting_states)
+    sd, cd = system.state_dims, system.control_dims
+    inst = SystemModel(system, controller, make_ann(sd + cd, sd, [sd]))
+    cls = getattr(objmod, init["cls"])
+    space = controller.parameter_space()
+    objective = cls(inst, True)
+
+    def expected(x: np.ndarray) -> float:
+        js = []
+        with np.errstate(all="ignore"):
+            for start in training:
+                ode = run_ode(np.array(start), real_eq,
+                              controller.controller, x, cd,
+                              system.training_steps, system.training_time)
+                j = float(j_from_ode(ode, sd, system.state_dims_in_j,
+                                     system.gamma))
+                if not 0.0 <= j <= 1e100:
+                    return 1e200
+                js.append(j)
+        z = _combine(init["cls"], js)
+        return z if 0.0 <= z <= 1e100 else 1e200
+
+    def close(a: float, b: float) -> bool:
+        return a == b or (b != 1e200 and a != 1e200
+                          and abs(a - b) <= 1e-9 * max(abs(b), 1e-300))
+
+    def rs(sp: Any) -> Any:
+        return RandomSampling(Op0Uniform(sp))
+
+    xs = [np.array(x, dtype=float) for x in case["xs"]]
+    want = [expected(x) for x in xs]
+    tag = (f"{init['cls']} on {init['sys']}/{init['ctrl']} "
+           f"(fancy_logs={case['fancy']}, log file={case['log']})")
+    td = tempfile.mkdtemp(prefix="vf_c11_") if case["log"] else None
+    res: dict = {}
+    try:
+        ex = Execution().set_objective(objective).set_solution_space(space)
+        ex.set_max_fes(case["budget"]).set_rand_seed(case["seed"])
+        if td is not None:
+            ex.set_log_file(os.path.join(td, "run.txt"))
+        ex.set_algorithm(SurrogateOptimizer(
+            inst, space, objective, fes_for_warmup=case["warmup"],
+            fes_for_training=case["train_fes"],
+            fes_per_model_run=case["model_fes"], fancy_logs=case["fancy"],
+            warmup_algorithm=rs, model_training_algorithm=rs,
+            controller_training_algorithm=rs))
+        try:
+            with ex.execute() as proc:
+                res["f"] = proc.get_best_f()
+                bx = proc.create()
+                proc.get_copy_of_best_x(bx)
+                res["x"] = bx
+                res["fes"] = proc.get_consumed_fes()
+        except Exception as exc:  # noqa: BLE001
+            raise Violation(f"surrogate run of {tag} raised "
+                            f"{type(exc).__name__}: {exc}") from exc
+    finally:
+        if td is not None:
+            shutil.rmtree(td, ignore_errors=True)
+    e = expected(res["x"])
+    require(close(res["f"], e), lambda: f"surrogate run of {tag}: best "
+            f"solution recorded with f={res['f']!r}, but on the real system "
+            f"its figure of merit is {e!r}")
+    for x, w in zip(xs, want):
+        with np.errstate(all="ignore"):
+            a = objective.evaluate(x.copy())
+            fresh = cls(inst, True).evaluate(x.copy())
+        require(close(a, w), lambda: f"{tag}: after the surrogate optimizer "
+                f"switched to its models and back, evaluate({x.tolist()}) = "
+                f"{a!r}, the per-case figures of merit on the real system "
+                f"combine to {w!r}")
+        require(close(fresh, w), lambda: f"{tag}: after a surrogate run a "
+                f"freshly created objective returns {fresh!r} for "
+                f"{x.tolist()}, expected {w!r}")
+    # the object goes on being used: initialize() clears the recorded data
+    # and returns to the real system, whatever happened before
+    from moptipyapps.dynamic_control.ode import diff_from_ode
+    x0, w0 = xs[0], want[0]
+    if w0 != 1e200:
+        blocks = []
+        with np.errstate(all="ignore"):
+            for start in training:
+                ode = run_ode(np.array(start), real_eq,
+                              controller.controller, x0, cd,
+                              system.training_steps, system.training_time)
+                sc, df = diff_from_ode(ode, sd)
+                blocks.append((np.array(sc), np.array(df)))
+        exp_sc = np.concatenate([b[0] for b in blocks])
+        exp_df = np.concatenate([b[1] for b in blocks])
+        for prelude in ("", "set_model(m); "):
+            if prelude:
+                objective.set_model(gen_dc.build_surrogate({
+                    "kind": "decay", "bias": [0.0] * sd,
+                    "W": [[-1.0 if i == j else 0.0 for j in range(sd + cd)]
+                          for i in range(sd)]}, objective))
+            objective.initialize()
+            with np.errstate(all="ignore"):
+                a = objective.evaluate(x0.copy())
+            require(close(a, w0), lambda: f"{tag}: after the surrogate run, "
+                    f"{prelude}initialize(); evaluate({x0.tolist()}) = "
+                    f"{a!r}, real-system value is {w0!r}")
+            got_sc, got_df = objective.get_differentials()
+            require(np.array_equal(got_sc, exp_sc)
+                    and np.array_equal(got_df, exp_df),
+                    lambda: f"{tag}: after the surrogate run, {prelude}"
+                    f"initialize(); evaluate(x); get_differentials() returns "
+                    f"{len(got_sc)} rows, the one real-system evaluation "
+                    f"since initialize() recorded {len(exp_sc)}")
+    require(system.equations is real_eq and str(system) == real_name,
+            f"{tag}: the surrogate run replaced the equations or the name "
+            f"of the real system (now {system!s})")
+    require(np.array_equal(training, system.training_starting_states),
+            f"{tag}: the surrogate run changed the training states")
+    return (res["fes"] > case["warmup"],
+            [f"surrogate.fancy={case['fancy']}", f"surrogate.log={case['log']}",
+             f"surrogate.cls={init['cls']}", f"surrogate.sys={init['sys']}"])
+
+
+def check_surrogate_run(ctx: Ctx, case: dict) -> None:
+    from vf.core import CaseTimeout, isolated
+    try:
+        nontrivial, labels = isolated(lambda: _surrogate_job(case),
+                                      SURROGATE_WATCHDOG_S)
+    except CaseTimeout:
+        ctx.rec.inconc("surrogate_watchdog")
+        return
+    ctx.rec.case(case, nontrivial=nontrivial, labels=labels)
+
+
+SUBS = {"history": replay_history(ObjectiveHistory),
+        "surrogate_run": check_surrogate_run}
 
 
 def run(ctx: Ctx) -> None:
@@ -366,3 +555,5 @@ def run(ctx: Ctx) -> None:
                            gen_dc.objective_ops)
     ctx.state_machine("history", machine, quick=60, thorough=16 * 400,
                       steps=ctx.pick(12, 25))
+    ctx.given("surrogate_run", surrogate_runs(catalog), check_surrogate_run,
+              quick=5, thorough=16 * 10, shrink=False)
